@@ -244,13 +244,13 @@ theorem C03_pause_play_fault_never_disturbs (P : Prog) (nf : Nat) (plan : Plan) 
   · have := hb.main; rw [hm] at this; cases this
   · exact ⟨hi, hk.tr⟩
 
-/-- NOT proved (the full clause "the stepping task returns normally" for hook faults; decided on every case of the harness by the
-op-by-op correspondence, field `task=`): after a transition-hook fault has fired, finitely many wake-ups end `step_until_terminated()`
-normally.  Missing: for the twins, the invariant that the interrupt slot never holds an action that already ran (`IA` of
-`PM/LProof16.lean`) and the linking invariant `Inv10L` (a blocked stepping task holds a released future), which `C02_listener_stepper_returns`
-has for `runL` only.  What IS proved: nothing propagates out of the faulty `transition_to` (`C03_transition_with_fault`), and for faults
-that are not lifecycle hooks the task's program counter is `done` (`PMF.L.C03_raising_step_excepted`).  The pause / play hooks are
-rightly absent from this statement: `C03_witness_superseded_pause_action_escapes`. -/
+/-- The clause "the stepping task returns normally" for hook faults, as one would like to state it: after a transition-hook fault has
+fired, finitely many wake-ups end `step_until_terminated()` normally.  It is FALSE of the model — and of the code:
+`C03_witness_stepper_blocked_after_exit_hook_fault` below.  On every case of the harness the clause is decided by the op-by-op
+correspondence (field `task=`) and the monitor.  What is proved instead: nothing propagates out of the faulty `transition_to`
+(`C03_transition_with_fault`), and for faults that are not lifecycle hooks the task's program counter is `done`
+(`PMF.L.C03_raising_step_excepted`).  (The pause / play hooks are rightly absent from the statement:
+`C03_witness_superseded_pause_action_escapes`.) -/
 def C03_stepper_returns_after_hook_fault : Prop :=
   ∀ (P : Prog) (nf : Nat) (plan : Plan) (a : Arm) (evs : List Ev), mainHK a.hk = true → afterClose a = false →
     (runX P (initX nf plan (some a)) evs).fired = true → ¬ InternalError (runX P (initX nf plan (some a)) evs) →
@@ -386,6 +386,39 @@ theorem C03_witness_super_check_not_exception_safe :
     let x := runX procC03 (initX 0 [(.played, 1, .kill)] (some ⟨.exitRunning, 1, false⟩)) [.tick, .pause, .tick]
     (stepF procC03 x .play).2 = .raised .assertion ∧ (stepF procC03 x .play).1.l.c.st = .excepted faultExc ∧
     (stepF procC03 x .play).1.l.c.fut = .exc faultExc := by decide +kernel
+
+/-- **`fail()` on a WAITING process whose `on_exit_waiting` raises leaves the stepping task blocked for ever (witness; NOT in the
+harness's enumeration, reproduced on the real code)**: the failed transition is redone with the exit phase bypassed
+(`_transition_failing`), so `Waiting.exit()` — which completes the wait the stepping task is suspended on — never runs: the process is
+EXCEPTED with the fault, closed, its future raising it, but `step_until_terminated()` never returns.  Hence
+`C03_stepper_returns_after_hook_fault` is false. -/
+theorem C03_witness_stepper_blocked_after_exit_hook_fault : ¬ C03_stepper_returns_after_hook_fault := by
+  intro h
+  have hx : (runX procC03 (initX 0 [] (some ⟨.exitWaiting, 0, false⟩)) [.tick, .tick, .tick, .fail (.user 9)]).fired = true ∧
+      (runX procC03 (initX 0 [] (some ⟨.exitWaiting, 0, false⟩)) [.tick, .tick, .tick, .fail (.user 9)]).l.c.st = .excepted faultExc ∧
+      (runX procC03 (initX 0 [] (some ⟨.exitWaiting, 0, false⟩)) [.tick, .tick, .tick, .fail (.user 9)]).l.c.pc = .awaitWaiting 0 ∧
+      (runX procC03 (initX 0 [] (some ⟨.exitWaiting, 0, false⟩)) [.tick, .tick, .tick, .fail (.user 9)]).l.c.wfs[0]? = some .pending := by
+    decide +kernel
+  obtain ⟨h1, h2, h3, h4⟩ := hx
+  have hni : ¬ InternalError (runX procC03 (initX 0 [] (some ⟨.exitWaiting, 0, false⟩)) [.tick, .tick, .tick, .fail (.user 9)]) := by
+    rintro ⟨e, he, hs⟩
+    rw [h2] at hs; cases hs
+    exact faultExc_not_internal he
+  obtain ⟨n, hn⟩ := h procC03 0 [] ⟨.exitWaiting, 0, false⟩ [.tick, .tick, .tick, .fail (.user 9)] rfl rfl h1 hni
+  generalize runX procC03 (initX 0 [] (some ⟨.exitWaiting, 0, false⟩)) [.tick, .tick, .tick, .fail (.user 9)] = x at hn h3 h4
+  -- a wake-up of a task that awaits a pending waiting future changes nothing
+  have hstay : ∀ n, runF procC03 x (List.replicate n .tick) = x := by
+    intro n
+    induction n with
+    | zero => rfl
+    | succ n ih =>
+      have h1 : (stepF procC03 x .tick).1 = x := by
+        show tickStepperF _ procC03 x = x
+        unfold tickStepperF; rw [h3]; simp only [h4]
+      show runF procC03 (stepF procC03 x .tick).1 (List.replicate n .tick) = x
+      rw [h1]; exact ih
+  rw [hstay n, h3] at hn
+  cases hn
 
 end FP
 end PMF
